@@ -15,7 +15,8 @@ use super::{
 };
 use crate::{
     interp::{Interpreter, JmpWhen},
-    BindContext, ByteCode, CelError, CelResult, CelValue, CelValueDyn, Program, StringTokenizer,
+    BindContext, ByteCode, CelError, CelResult, CelValue, CelValueDyn, Program, ProgramDetails,
+    StringTokenizer,
 };
 
 use crate::compile;
@@ -972,9 +973,12 @@ impl<'l> CelCompiler<'l> {
 
                         let mut args_ast = Vec::new();
                         let mut args_node = CompiledProg::empty();
+                        // The callee and every argument contribute to the program's params
+                        let mut call_details = member_prime_node.details().clone();
                         // Arguments are evaluated backwards so they get popped off the stack in order
                         for (a, ast) in args.into_iter().rev() {
                             args_ast.push(ast);
+                            call_details.union_from(a.details().clone());
                             args_node =
                                 args_node.append_result(CompiledProg::with_code_points(vec![
                                     ByteCode::Push(a.into_unresolved_bytecode().resolve().into())
@@ -990,6 +994,7 @@ impl<'l> CelCompiler<'l> {
                             .into()]));
 
                         member_prime_node = self.check_for_const(member_prime_node);
+                        member_prime_node.details = call_details;
 
                         member_prime_ast.push(AstNode::new(
                             MemberPrime::Call {
@@ -1273,6 +1278,7 @@ impl<'l> CelCompiler<'l> {
                 loc,
             }) => {
                 let mut bytecode = Vec::<PreResolvedCodePoint>::new();
+                let mut details = ProgramDetails::new();
 
                 for segment in segments.iter() {
                     match segment {
@@ -1284,6 +1290,7 @@ impl<'l> CelCompiler<'l> {
                             let mut comp = CelCompiler::with_tokenizer(&mut tok);
 
                             let (e, _) = comp.parse_expression()?;
+                            details.union_from(e.details().clone());
 
                             bytecode.push(
                                 ByteCode::Push(CelValue::ByteCode(
@@ -1301,7 +1308,10 @@ impl<'l> CelCompiler<'l> {
                 bytecode.push(ByteCode::FmtString(segments.len() as u32).into());
 
                 Ok((
-                    CompiledProg::with_code_points(bytecode),
+                    CompiledProg::new(
+                        NodeValue::Bytecode(bytecode.into_iter().collect()),
+                        details,
+                    ),
                     AstNode::new(
                         Primary::Literal(LiteralsAndKeywords::FStringList(segments.clone())),
                         loc,
